@@ -216,7 +216,7 @@ func (s jsonSet) patch(
 				id := o.pathIdent(jsonObject(pathSetKeys), metadata)
 				if id == lookingFor {
 					v.patch(append(pathBehind, n), rest, before, oldValues, newValues, after, strategy)
-					return s, nil
+					return jsonArray(s), nil
 				}
 			}
 		}
@@ -283,5 +283,5 @@ func (s jsonSet) patch(
 	for _, hc := range hashes {
 		newValue = append(newValue, aMap[hc])
 	}
-	return newValue, nil
+	return jsonArray(newValue), nil
 }
